@@ -489,12 +489,33 @@ def _raising_factory(world, who, iid, direction):
 
 def instrument_endpoint_queue(world, ep, side):
     from . import libcodec
+    submitted = []      # strong references: id() of a frame still held by the library must stay unique
+    seen = set()
+
+    def submit(frame, name):
+        # 'submit' = the moment a handler hands a frame to the endpoint (send_request / send_frame /
+        # send_priority_frame), whether or not the endpoint sends it on at once (lease gating may retain it)
+        if id(frame) in seen:
+            return
+        seen.add(id(frame))
+        submitted.append(frame)
+        world.events.append({'t': world.now(), 'kind': 'submit', 'ep': side, 'f': libcodec.snapshot(frame),
+                             'priority': name == 'send_priority_frame', 'i': len(world.events)})
+
+    orig_request = ep.send_request
+
+    def request_wrapper(frame, _orig=orig_request):
+        submit(frame, 'send_request')
+        return _orig(frame)
+
+    ep.send_request = request_wrapper
     for name in ('send_frame', 'send_priority_frame'):
         orig = getattr(ep, name)
 
         def wrapper(frame, _orig=orig, _name=name):
             # the frame "enters the send path" when it lands in the send queue; a frame the library decides to hold
             # back (behind a request that waits for a lease) is recorded when the library releases it
+            submit(frame, _name)
             d = libcodec.snapshot(frame)
             before = ep._send_queue.qsize()
             r = _orig(frame)
@@ -518,6 +539,8 @@ def trace_excerpt(world, limit=80, iid=None):
         elif e['kind'] == 'queue':
             out.append('%.6f %s queue %s%s' % (e['t'], e['ep'], minicodec.brief(e['f']),
                                                ' PRIORITY' if e.get('priority') else ''))
+        elif e['kind'] == 'submit':
+            continue
         else:
             if iid is not None and e.get('iid') not in (iid, None):
                 continue
